@@ -13,7 +13,7 @@ theorem overNat_false {m : Option Nat} {d : Nat} :
 
 theorem validateDuration_ok {c : ChanCfg} {d d' : Nat} (hc : 0 < c.clock)
     (h : validateDuration c d = .ok d') :
-    c.minDur ≤ d ∧ (∀ m, c.maxDur = some m → d ≤ m) ∧ d ≤ d' ∧ d' < d + c.clock ∧ c.clock ∣ d' := by
+    c.minDur ≤ d ∧ (∀ m, c.maxDur = some m → d' ≤ m) ∧ d ≤ d' ∧ d' < d + c.clock ∧ c.clock ∣ d' := by
   unfold validateDuration at h
   by_cases h1 : d < c.minDur
   · simp [h1] at h
@@ -26,12 +26,17 @@ theorem validateDuration_ok {c : ChanCfg} {d d' : Nat} (hc : 0 < c.clock)
       have hm := Nat.mod_lt d hc
       by_cases h3 : d % c.clock ≠ 0
       · rw [if_pos h3] at h
-        injection h with h; subst h
-        refine ⟨by omega, hmax, by omega, by omega, ?_⟩
-        have h4 : d + (c.clock - d % c.clock) = (d / c.clock + 1) * c.clock := by
-          have := Nat.div_add_mod d c.clock
-          rw [Nat.add_mul, Nat.one_mul, Nat.mul_comm]; omega
-        rw [h4]; exact Nat.dvd_mul_left _ _
+        cases h4 : overNat c.maxDur (d + (c.clock - d % c.clock)) with
+        | true => simp [h4] at h
+        | false =>
+          rw [h4] at h
+          rw [if_neg (by simp)] at h
+          injection h with h; subst h
+          refine ⟨by omega, overNat_false.mp h4, by omega, by omega, ?_⟩
+          have h5 : d + (c.clock - d % c.clock) = (d / c.clock + 1) * c.clock := by
+            have := Nat.div_add_mod d c.clock
+            rw [Nat.add_mul, Nat.one_mul, Nat.mul_comm]; omega
+          rw [h5]; exact Nat.dvd_mul_left _ _
       · rw [if_neg h3] at h
         injection h with h; subst h
         refine ⟨by omega, hmax, Nat.le_refl _, by omega, ?_⟩
@@ -49,7 +54,7 @@ theorem validateDuration_idem {c : ChanCfg} {d : Nat} (h1 : c.minDur ≤ d)
 theorem adjustDuration_ok {c : ChanCfg} {d d' : Nat} (hc : 0 < c.clock)
     (h : adjustDuration c d = .ok d') :
     c.minDur ≤ d' ∧ d ≤ d' ∧ c.clock ∣ d' ∧ d' < max d c.minDur + c.clock ∧
-      (∀ m, c.maxDur = some m → max d c.minDur ≤ m) := by
+      (∀ m, c.maxDur = some m → d' ≤ m) := by
   unfold adjustDuration at h
   have := validateDuration_ok hc h
   refine ⟨by omega, by omega, this.2.2.2.2, by omega, this.2.1⟩
